@@ -48,7 +48,7 @@ ANCHORS = ["glue.core.subset:roi_to_subset_state", "glue.core.roi:CategoricalROI
            "glue.core.subset:CategoricalMultiRangeSubsetState.to_mask", "glue.core.subset:RangeSubsetState.to_mask",
            "glue.core.subset:CategoricalROISubsetState.to_mask"]
 
-N_BLOCKS = {"quick": 320, "thorough": 9000}
+N_BLOCKS = {"quick": 800, "thorough": 9000}
 PER_BLOCK = 25
 TOLF, TOLA, POLY_MUL = 1e-7, 1e-10, 1e-3
 LABELS = ["a", "b", "c", "dd", "e", "ff", "g", "B", "zz"]
